@@ -8,8 +8,9 @@
 // (`maybe_externally_tagged_enum`): it must be set when ANY payload is closed, whatever the order
 // of the oneOf members -- otherwise the closed payload accepts unknown members.
 //
-//   P2e deny_unknown_fields of the enum == (some inline payload is closed), for the union
-//       [closed {dx, dy}, open {text, volume}] in both orders, and for [open, open]
+//   P2e some inline payload is closed ==> deny_unknown_fields of the enum, for the union
+//       [closed {dx, dy}, open {text, volume}] in both orders. (The converse -- an all-open union
+//       stays open -- is about accepting valid instances, property C02, and is not asserted.)
 //
 // BOUNDED STAND-IN (`tier=native`): the function goes through the conversion driver
 // (external_variant -> struct_members -> id_for_schema), which is in reach of neither verifier;
@@ -50,7 +51,6 @@ fn enum_denies_unknown(members: Vec<serde_json::Value>) -> bool {
 fn c05_enum_closed_variant_any_order() {
     let closed = || payload("move", "dx", "dy", true);
     let open = || payload("say", "text", "volume", false);
-    let open2 = || payload("log", "level", "code", false);
     kani::assert(
         enum_denies_unknown(vec![closed(), open()]),
         "[C05/P2e] a closed inline payload (first member) does not close the generated enum's struct variants",
@@ -58,10 +58,6 @@ fn c05_enum_closed_variant_any_order() {
     kani::assert(
         enum_denies_unknown(vec![open(), closed()]),
         "[C05/P2e] a closed inline payload (last member) does not close the generated enum's struct variants",
-    );
-    kani::assert(
-        !enum_denies_unknown(vec![open(), open2()]),
-        "[C05/P2e] an enum without any closed payload rejects unknown members",
     );
 }
 
